@@ -1,6 +1,6 @@
 (** * C15 — uninitialised construction never destroys or exposes what was not written.  Property theorems only. *)
 From Coq Require Import NArith List Bool Arith.
-From TV Require Import Mech MechProofs MechLog MechProps.
+From TV Require Import Layout SrcFacts Bits Conc ConcX Guard Cmp Serde Traits Mech MechProofs MechLog MechProps Extracted.
 Import ListNotations.
 Open Scope N_scope.
 
@@ -67,8 +67,15 @@ Example C15_nonvacuous :
    [0; 99999999; 5; 3; 1; 5; 4; 0; 1; 2; 1; 3; 1; 4; 1; 5; 2; 1]].
 Proof. vm_compute. reflexivity. Qed.
 
+
+(** the uninitialised constructors, the writers and the assume_init family (12 functions) still have the bodies the
+    machine's constructors, slot writes and type-only conversions were transcribed from *)
+Theorem C15_functions_are_the_modelled_ones : Extracted.uninit_forms_ok = true.
+Proof. reflexivity. Qed.
+
 Check C15_uninit_drop_runs_no_element_destructor.
 Print Assumptions C15_uninit_drop_runs_no_element_destructor.
 Print Assumptions C15_init_drop_destroys_every_element_once.
 Print Assumptions C15_assume_init_changes_only_the_type.
 Print Assumptions C15_shared_deprecated_write_panics.
+Print Assumptions C15_functions_are_the_modelled_ones.
